@@ -1,6 +1,6 @@
 """C06 - reported uncertainties and p-values are coherent with the evaluations (DESIGN 4/C06)
 
-Five exhaustively enumerated families (V, T, F, M: every case additionally under EVERY permutation of
+Six exhaustively enumerated families (V, T, F, M: every case additionally under EVERY permutation of
 the model order):
 
   V  variance extraction: Result(variances=<scalar|vector|matrix|3-stack>, with/without the two
@@ -21,6 +21,13 @@ the model order):
      set of ndarrays: the stored evaluations / variances / noise ceiling stay bit-identical after
      every call and every later output equals the same call on a fresh object built from the
      original evaluations (which T / F judge against the references).
+  X  cross-consistency: stored covariances WITH the two ceiling rows, lower and upper ceiling differing
+     in variance and in covariance with the models (vector / matrix / 3-stack, alphabets and fills, all
+     n_rdm/n_pattern, dof): every p-value family of test_all / all_tests equals the single-purpose
+     routine (test_pairwise/zero/noise, pair_tests/zero_tests/nc_tests) and the reference t-test on the
+     reference contrast of the covariance (ceiling: LOWER row); Result.get_errorbars and
+     inference_util.get_errorbars agree with get_sem / get_ci.  The same three judges also run on every
+     base case of T (and test_all == single-purpose test on F and M).
 """
 import itertools
 import sys
@@ -53,6 +60,9 @@ ASSUMPTIONS = [
     'NaN samples = whole bootstrap samples (all models) or, for 1 x model x subject arrays, whole subjects',
     'rank-sum tests only for 3-D evaluations (asserted by the library); bootstrap tests need >= 2 samples',
     'covariance inputs are symmetric (possibly indefinite in the alphabets)',
+    't-test p-values in general (documented in t_tests / t_test_0 / t_test_nc): mean difference / mean / '
+    'mean - lower ceiling over sqrt(variance contrast), Student t with the stored dof; undefined (excluded) '
+    'for a non-positive variance',
     'sequence family: a call repeated on a fresh object with bit-identical inputs is deterministic, so later '
     'outputs are compared bit-for-bit with the first-call outputs',
 ]
